@@ -61,7 +61,10 @@ def eval_case(case):
         if m == 4: dom = dom[:, (dom < 4).all(axis=0)]
         n = dom.shape[1]
         bp = [logic.mv_to_bp(dom[j][np.newaxis, :])[0][:mdim] for j in range(k)]  # [mdim, nbytes]
-        out = np.full_like(bp[0], 0x5A)
+        if case.get('inplace'):      # NOT in place, as LogicSim evaluates NAND/NOR/XNOR/AOI...: `bp?v_not(c[o], c[o])`
+            out = bp[0] = bp[0].copy()
+        else:
+            out = np.full_like(bp[0], 0x5A)
         getattr(logic, f'bp{m}v_{op}')(out, *bp)
         full = np.zeros((3, out.shape[-1]), dtype=np.uint8); full[:mdim] = out
         got = logic.bp_to_mv(full[np.newaxis])[0][:n]
@@ -131,6 +134,7 @@ def oracle(ck, scale):
             cases.append({'kind': 'mv_full', 'op': op, 'k': k})
             for m in (8, 4):
                 cases.append({'kind': 'bp_full', 'op': op, 'k': k, 'm': m})
+                if op == 'not': cases.append({'kind': 'bp_full', 'op': op, 'k': k, 'm': m, 'inplace': True})
     def rshape(maxd=4):
         return [rng.choice([1, 1, 2, 3, 5, 9]) for _ in range(rng.randint(0, maxd))]
     for it in range(120 * scale):
@@ -160,7 +164,7 @@ def oracle(ck, scale):
             ok, obs, exp = eval_case(c)
         except Exception as ex:
             ok, obs, exp = False, {'raised': f'{type(ex).__name__}: {ex}'[:300]}, None
-        desc = (c['kind'], c['op'], c.get('k'), c.get('m'), json.dumps(c.get('shapes', c.get('lead', c.get('shape')))), c.get('out'))
+        desc = (c['kind'], c['op'], c.get('k'), c.get('m'), json.dumps(c.get('shapes', c.get('lead', c.get('shape')))), c.get('out'), c.get('inplace'))
         ck.case(key=desc, sample=c, tag=[c['kind'], 'op:' + c['op']] + (['out=' + str(c['out'])] if 'out' in c else []))
         if not ok:
             cls = 'out-param' if (c['kind'] == 'mv_shape' and c.get('out')) else c['kind']
